@@ -176,6 +176,19 @@ def check(run):
             ("header-folder-is-file", [T, {**ids, "k": "H", "fk": "D", "hk": "V", "data": [[1, 1024]]}], blocked(b"sqpack/ffxiv"))]:
         data = zipatch.encode_patch(cs + [{"k": "EOF"}])
         extra.append(faults.line(n, pbx, {"k": "sequence", "what": name}, data, must_fail=True, tree0=tree))
+    # the target is a device without room (/dev/full): the write cannot have happened, so the patch must not report success -
+    # small payloads included, which a buffered writer would only push out (and fail on) when it is dropped
+    import os
+    if os.path.exists("/dev/full"):
+        dat0 = "sqpack/ffxiv/0a0000.win32.dat0"
+        for name, cs in [("adddata-128-on-full-device", [T, {**ids, "k": "A", "off": 0, "data": [[1, 128]], "del": 0}]),
+                         ("adddata-4096-on-full-device", [T, {**ids, "k": "A", "off": 2, "data": [[3, 4096]], "del": 1}]),
+                         ("adddata-65536-on-full-device", [T, {**ids, "k": "A", "off": 0, "data": [[5, 65536]], "del": 0}]),
+                         ("expand-on-full-device", [T, {**ids, "k": "E", "off": 0, "n": 1}]),
+                         ("delete-on-full-device", [T, {**ids, "k": "D", "off": 0, "n": 2}]),
+                         ("header-on-full-device", [T, {**ids, "k": "H", "fk": "D", "hk": "V", "data": [[1, 1024]]}])]:
+            data = zipatch.encode_patch(cs + [{"k": "EOF"}])
+            extra.append(faults.line(n, pbx, {"k": "sequence", "what": name}, data, must_fail=True, tree0={"dirs": [], "files": []}, full_device=dat0))
     # a file operation declaring a huge file size with no data behind it
     huge = zipatch.encode_patch([T, {"k": "FA", "path": list(b"h.bin"), "off": 0, "data": [[5, 10]], "blocks": [[False, 10]]}, {"k": "EOF"}])
     k = huge.index(b"SQPK") + 4 + 4 + 1 + 3 + 8
@@ -185,7 +198,7 @@ def check(run):
     run.rule = ("every (base, fault) pair of the fault space enumerated by TLC from Faults.tla (truncation at every length 0..48, every "
                 "field boundary +-1 and the file's tail; every field set to 0, 1, 0x7F.., 0x80.., 0xFF.., original +-1 in both byte orders) over "
                 "valid bases of each format (quick: a seeded 260 per base), named text / path faults, patch fault sequences (command before "
-                "target info, count 0, missing folder, unwritable target, a regular file in the place of a needed directory, huge size, stream ends anywhere), random multi-byte damage; each "
+                "target info, count 0, missing folder, unwritable target, a regular file in the place of a needed directory, a target device without room, huge size, stream ends anywhere), random multi-byte damage; each "
                 "run in an isolated worker with a counting allocator; distinct by input bytes, all non-trivial")
     run.conform(cases, MODULE, CFG, shards=14, mode="supervise", xmx="3g")
     run.assumptions = ["a crash, hang or abort of the worker is recorded by the supervisor for the case that was running",
